@@ -1,6 +1,8 @@
 package sym
 
 import (
+	"crypto/sha256"
+	"crypto/sha512"
 	"fmt"
 	"go/types"
 
@@ -18,6 +20,28 @@ type hashCall struct {
 // and collision-freeness axioms against every earlier application on this path.
 func (w *Worker) hashUF(alg string, n int, in []*Term) []*Term {
 	T := w.T
+	// fully concrete input: the real digest (consistent with the collision-freeness idealisation)
+	if cs, ok := concreteStr(Str{in}); ok {
+		var d []byte
+		switch alg {
+		case "sha256":
+			x := sha256.Sum256([]byte(cs))
+			d = x[:]
+		case "sha384":
+			x := sha512.Sum384([]byte(cs))
+			d = x[:]
+		case "sha512":
+			x := sha512.Sum512([]byte(cs))
+			d = x[:]
+		}
+		if d != nil {
+			out := make([]*Term, len(d))
+			for i, b := range d {
+				out[i] = T.Const(8, uint64(b))
+			}
+			return out
+		}
+	}
 	for _, h := range w.hashes {
 		if h.alg == alg && len(h.in) == len(in) {
 			same := true
